@@ -20,7 +20,20 @@ fn viol(rep: &mut Report, ty: &str, op: &str, what: &str, v: String) {
     );
 }
 
+/// every probe runs under catch_unwind: the integer types promise an error value, never a panic
 fn check_u(v: u64, prev: Option<u64>, rep: &mut Report) {
+    if let Err((loc, msg)) = crate::report::catch(|| check_u_inner(v, prev, rep)) {
+        viol(rep, "U53", "any-operation", "panics", format!("{v} (at {}: {msg})", crate::report::short_loc(&loc)));
+    }
+}
+
+fn check_i(v: i64, prev: Option<i64>, rep: &mut Report) {
+    if let Err((loc, msg)) = crate::report::catch(|| check_i_inner(v, prev, rep)) {
+        viol(rep, "I54", "any-operation", "panics", format!("{v} (at {}: {msg})", crate::report::short_loc(&loc)));
+    }
+}
+
+fn check_u_inner(v: u64, prev: Option<u64>, rep: &mut Report) {
     let expect_ok = v <= SAFE;
     let r = U53::try_from(v);
     rep.eval(1);
@@ -111,7 +124,7 @@ fn check_u(v: u64, prev: Option<u64>, rep: &mut Report) {
     }
 }
 
-fn check_i(v: i64, prev: Option<i64>, rep: &mut Report) {
+fn check_i_inner(v: i64, prev: Option<i64>, rep: &mut Report) {
     let expect_ok = v >= -(SAFE as i64) && v <= SAFE as i64;
     let r = I54::try_from(v);
     rep.eval(1);
@@ -308,7 +321,9 @@ pub fn run(ctx: &Ctx) -> (Spec, Report) {
         rep
     });
     rep.count("neighbourhood_centres", n_shards as u64);
-    constants_and_widening(&mut rep);
+    if let Err((loc, msg)) = crate::report::catch(|| constants_and_widening(&mut rep)) {
+        viol(&mut rep, "U53/I54", "constants-and-widening", "panics", format!("at {}: {msg}", crate::report::short_loc(&loc)));
+    }
 
     // random draws stratified by bit length
     let draws: u64 = ctx.tier.pick(1_000_000, 10_000_000);
